@@ -128,7 +128,7 @@ type c20Runner struct {
 // the op line replays the one that ran away).
 const (
 	c20Deadline = 60 * time.Second
-	c20HeapCap  = 2 << 30 // bytes of live heap
+	c20HeapCap  = 1 << 30 // bytes of live heap
 )
 
 func c20NewRunner(t *testing.T) *c20Runner {
@@ -871,7 +871,8 @@ func c20GenExpo(r *vh.Rng) (*c20Case, string) {
 		b.WriteString("import exlib\n" + wrap(imports("la", 1+r.Intn(3))))
 		tag = "file-snippets"
 	default: // no multiplication at all: one snippet imported many times, around the limit
-		p := 1 + r.Intn(120)
+		// (the snippet is large so that the input stays short: the model's dispenser is a list)
+		p := 60 + r.Intn(120)
 		c := 100000/(p+1) + r.Intn(5) - 2
 		if r.Chance(60) {
 			c = r.Intn(200)
@@ -1024,7 +1025,7 @@ func c20GenSameLine(r *vh.Rng) (*c20Case, string) {
 	case x < 50:
 		n = 240 + r.Intn(17)
 	case x < 97:
-		n = 257 + r.Intn(60)
+		n = 257 + r.Intn(30)
 	default:
 		n = 400 + r.Intn(400)
 	}
@@ -1283,7 +1284,7 @@ func TestVerifC20Parse(t *testing.T) {
 			rn.runCase(out, cs, false, tag)
 			continue
 		}
-		if i%50 == 13 {
+		if i%120 == 13 {
 			cs, tag := c20GenSameLine(r)
 			rn.runCase(out, cs, i%12 == 1, tag)
 			continue
